@@ -13,17 +13,18 @@ import z3
 from ..values import is_sym, to_real, to_z3
 
 R = z3.RealSort()
-F_EXP = z3.Function('exp', R, R)
+F_EXP = z3.Function('exp_', R, R)
 F_LOG = z3.Function('ln', R, R)
 F_LOG10 = z3.Function('log10', R, R)
-F_POW = z3.Function('pow', R, R, R)
-F_SQRT = z3.Function('sqrt', R, R)
-F_SIN = z3.Function('sin', R, R)
-F_COS = z3.Function('cos', R, R)
+F_POW = z3.Function('pow_', R, R, R)
+F_SQRT = z3.Function('sqrt_', R, R)
+F_SIN = z3.Function('sin_', R, R)
+F_COS = z3.Function('cos_', R, R)
 PI = z3.Real('pi')
 PI_AXIOM = z3.And(PI > z3.RealVal('3.14159265358979'), PI < z3.RealVal('3.14159265358980'))
 
 AXIOMS_USED = set()
+UNCHECKED = [0]     # >0 while element functions are evaluated whose definedness was checked for a generic index
 
 
 def floordiv_int(a, b):
@@ -44,17 +45,17 @@ def _note(name):
 def exp(I, x):
     x = to_real(x)
     r = F_EXP(x)
-    I.ctx.assume(r > 0)
+    I.ctx.axiom(r > 0)
     _note('exp(x) > 0')
     x0 = z3.simplify(x)
     if z3.is_rational_value(x0) and x0.numerator_as_long() == 0:
-        I.ctx.assume(r == 1)
+        I.ctx.axiom(r == 1)
     return r
 
 
 def log(I, x, base='e'):
     x = to_real(x)
-    if I.ctx.branch(x <= 0):
+    if not UNCHECKED[0] and I.ctx.branch(x <= 0):
         I.raise_('NonFiniteResult', 'log of a non-positive number')
     f = F_LOG if base == 'e' else F_LOG10
     r = f(x)
@@ -63,10 +64,10 @@ def log(I, x, base='e'):
 
 def sqrt(I, x):
     x = to_real(x)
-    if I.ctx.branch(x < 0):
+    if not UNCHECKED[0] and I.ctx.branch(x < 0):
         I.raise_('NonFiniteResult', 'sqrt of a negative number')
     r = F_SQRT(x)
-    I.ctx.assume(z3.And(r >= 0, r * r == x))
+    I.ctx.axiom(z3.Implies(x >= 0, z3.And(r >= 0, r * r == x)))
     _note('sqrt(x) >= 0 and sqrt(x)^2 = x for x >= 0')
     return r
 
@@ -82,7 +83,7 @@ def cos(I, x):
 def _sincos(I, x):
     x = to_real(x)
     s, c = F_SIN(x), F_COS(x)
-    I.ctx.assume(s * s + c * c == 1)
+    I.ctx.axiom(s * s + c * c == 1)
     _note('sin^2 + cos^2 = 1')
     return s, c
 
@@ -92,6 +93,8 @@ def power(I, a, b):
     b0 = z3.simplify(to_z3(b)) if is_sym(b) else b
     if is_sym(b0) and (z3.is_int_value(b0) or (z3.is_rational_value(b0) and b0.denominator_as_long() == 1)):
         b0 = b0.as_long() if z3.is_int_value(b0) else b0.numerator_as_long()
+    if is_sym(b0) and z3.is_rational_value(b0):
+        b0 = Fraction(b0.numerator_as_long(), b0.denominator_as_long())
     if isinstance(b0, Fraction) and b0.denominator == 1:
         b0 = b0.numerator
     if isinstance(b0, int) and not isinstance(b0, bool):
@@ -116,12 +119,18 @@ def power(I, a, b):
 def _pow_uf(I, a, b):
     a, b = to_real(a), to_real(b)
     # real power of a negative base is nan in numpy / complex in python: undefined for us
-    if I.ctx.branch(a < 0):
+    if not UNCHECKED[0] and I.ctx.branch(a < 0):
         I.raise_('NonFiniteResult', 'real power of a negative base')
     r = F_POW(a, b)
-    I.ctx.assume(z3.Implies(a > 0, r > 0))
-    I.ctx.assume(z3.Implies(z3.And(a == 0, b > 0), r == 0))
-    I.ctx.assume(z3.Implies(b == 0, r == 1))
-    I.ctx.assume(z3.Implies(b == 1, r == a))
+    I.ctx.axiom(z3.Implies(a > 0, r > 0))
+    I.ctx.axiom(z3.Implies(z3.And(a == 0, b > 0), r == 0))
+    I.ctx.axiom(z3.Implies(b == 0, r == 1))
+    I.ctx.axiom(z3.Implies(b == 1, r == a))
     _note('pow(a,b) > 0 for a > 0; pow(0,b)=0 for b>0; pow(a,0)=1; pow(a,1)=a')
     return r
+
+
+def log_facts(I, x, base='e'):
+    """Instances available on request: log is defined on positives; 10**log10(x) = x is stated via
+    pow in the contracts that need it."""
+    return None
